@@ -12,6 +12,7 @@ import SqiProofs.HnfEchelon
 import SqiProofs.QuatGroupIndex
 import SqiProofs.QuatO0
 import SqiGen.QuatAlg
+import SqiGen.QuatMat
 /- C14 — "Quaternion algebra and lattice arithmetic is exact and canonical".
    Property theorems about the hand model `SqiModel.Quat` (tie H: the model's executable definitions are run
    against the C functions of algebra.c / dim4.c / lattice.c on every check run by tools/props/c14.py).
@@ -97,6 +98,25 @@ theorem quat_alg_mul_translated_exact (p : ℤ) (a b : Elem) (ha : a.denom ≠ 0
   have h : r = _ := quat_alg_mul_translated p a b
   rw [h]
   exact algMul_val p a b ha hb
+
+/-- tie T: the entry scan of `ibz_mat_4x4_gcd` as translated from the current C text is the model's content of ALL 16
+    entries (a scan restricted to part of the matrix — seeded change C14-m2 — breaks this proof at `lake build`) -/
+theorem mat_gcd_translated (m : Mat4) : SqiGen.QuatMat.ibz_mat_4x4_gcd ibzGcd m.get = m.gcd := by
+  obtain ⟨⟨a00, a01, a02, a03⟩, ⟨a10, a11, a12, a13⟩, ⟨a20, a21, a22, a23⟩, ⟨a30, a31, a32, a33⟩⟩ := m
+  rfl
+
+/-- tie T: `ibz_mat_4x4_scalar_div` as translated = the model (quotients and "all remainders zero" flag) -/
+theorem mat_scalar_div_translated (s : ℤ) (m : Mat4) :
+    SqiGen.QuatMat.ibz_mat_4x4_scalar_div Int.tdiv Int.tmod s m.get = ((m.scalarDiv s).1.toList, (m.scalarDiv s).2) := by
+  obtain ⟨⟨a00, a01, a02, a03⟩, ⟨a10, a11, a12, a13⟩, ⟨a20, a21, a22, a23⟩, ⟨a30, a31, a32, a33⟩⟩ := m
+  simp only [SqiGen.QuatMat.ibz_mat_4x4_scalar_div, Mat4.scalarDiv, Mat4.map, Vec4.map, Mat4.toList, Vec4.toList,
+    Vec4.scalarDiv, Mat4.get, Mat4.row, Vec4.get, List.cons_append, List.nil_append, Prod.mk.injEq, true_and,
+    Bool.true_and, Bool.and_assoc]
+
+/-- tie T: the call skeleton of `quat_lattice_reduce_denom` as translated = the model `latReduceDenom` -/
+theorem reduce_denom_translated (l : Lattice) :
+    SqiGen.QuatMat.quat_lattice_reduce_denom ibzGcd Int.tdiv Int.tmod Mat4.gcd (fun s m => (Mat4.scalarDiv s m).1)
+      l.denom l.basis = ((latReduceDenom l).denom, (latReduceDenom l).basis) := rfl
 
 /-! ## dim4.c -/
 
